@@ -1905,4 +1905,96 @@ example :
   · exact ⟨by simp, by simp, by simp⟩
 
 
+/-! ## the cell's parameters tree: every modifier class keeps its place whatever else the card carries
+
+`Cell.format_for_mcnp_input` reaches a cell-level modifier only through its node in `cell._tree["parameters"]`
+(`formatCellTree`); the write theorems above are about `formatCell`, which visits every class.  The two are the same
+card because `_parse_keyword_modifiers` leaves a node for EVERY class, for any other parameters on the card. -/
+
+/-- `K.pfxC` is `_class_prefix()` -/
+theorem K.pfxC_eq (k : K) : k.pfxC = k.pfx.toList := by
+  cases k <;> decide
+
+theorem mem_slots_of_not_found_default (ps : List Param) (k : K)
+    (h : (k == K.imp) = false ∨ ps.any (fun p => hasInfix K.imp.pfxC p.key) = false) : k ∈ slots ps := by
+  unfold slots
+  refine List.mem_filter.mpr ⟨by cases k <;> decide, ?_⟩
+  by_cases hf : k ∈ foundClassPrefixes ps
+  · simp [hf]
+  · have hd : k ∈ defaultsAppended ps := by
+      unfold defaultsAppended
+      refine List.mem_filter.mpr ⟨by cases k <;> decide, ?_⟩
+      rcases h with h | h
+      · simp [hf, h]
+      · simp [hf, h]
+    simp [hd]
+
+/-- for ANY parameters on the card — any keys, any prefixes —, every class other than IMP has a node in the
+    parameters tree after `_parse_keyword_modifiers`: given on the card, or its blank tree appended -/
+theorem C09_slots_others (ps : List Param) (k : K) (hk : k ≠ K.imp) : k ∈ slots ps :=
+  mem_slots_of_not_found_default ps k (Or.inl (by cases k <;> first | exact absurd rfl hk | decide))
+
+theorem found_of_imp_key (ps : List Param) (hi : impKeysAreImp ps = true)
+    (h : ps.any (fun p => hasInfix K.imp.pfxC p.key) = true) : K.imp ∈ foundClassPrefixes ps := by
+  unfold foundClassPrefixes
+  refine List.mem_filter.mpr ⟨by decide, ?_⟩
+  obtain ⟨p, hp, hin⟩ := List.any_eq_true.mp h
+  refine List.any_eq_true.mpr ⟨p, hp, ?_⟩
+  have := List.all_eq_true.mp hi p hp
+  simpa [hin] using this
+
+/-- when every key that contains `imp` is an IMP parameter (`impKeysAreImp`: the only shape the IMP-only guard of the
+    second loop looks at), every class has its node: the walk over the tree is the walk over all classes, and the
+    card the code writes (`formatCellTree`) is the card the write theorems are about (`formatCell`) -/
+theorem C09_slots_complete (close : Rat → Rat → Bool) (flags : Flags) (c : Cell) (ps : List Param)
+    (hi : impKeysAreImp ps = true) :
+    slots ps = K.all ∧ formatCellTree close flags c ps = formatCell close flags c := by
+  have hall : ∀ k ∈ K.all, k ∈ slots ps := by
+    intro k _
+    by_cases hk : k = K.imp
+    · subst hk
+      by_cases h : ps.any (fun p => hasInfix K.imp.pfxC p.key) = true
+      · have hf := found_of_imp_key ps hi h
+        unfold slots
+        refine List.mem_filter.mpr ⟨by decide, ?_⟩
+        simp [hf]
+      · exact mem_slots_of_not_found_default ps K.imp (Or.inr (by simpa using h))
+    · exact C09_slots_others ps k hk
+  have hs : slots ps = K.all := by
+    unfold slots
+    exact List.filter_eq_self.mpr (fun k hk => by
+      have := hall k hk
+      unfold slots at this
+      exact (List.mem_filter.mp this).2)
+  exact ⟨hs, by unfold formatCellTree formatCell; rw [hs]⟩
+
+/-- a class WITHOUT a node is not printed on the card at all: the node is what the exactly-once theorems rest on -/
+theorem C09_slot_needed (close : Rat → Rat → Bool) (flags : Flags) (c : Cell) (sl : List K) (k : K) (hk : k ∉ sl) :
+    ∀ q ∈ sl.flatMap (formatCellInst close flags c), q.k ≠ k := by
+  intro q hq
+  obtain ⟨k', hk', hq'⟩ := List.mem_flatMap.mp hq
+  rw [formatCellInst_class close flags c k' q hq']
+  intro h
+  exact hk (h ▸ hk')
+
+/-- the keyword table of the lexer that reads cell cards, as extracted on this run: `imp` is the only keyword that
+    contains `imp` (so the IMP-only guard of the second loop cannot hide the IMP node behind another parameter's
+    prefix), while the prefix `u` of the universe class is inside other keywords — the guard must stay IMP-only -/
+theorem C09_cell_keywords :
+    (∀ kw ∈ Gen.cellLexerKeywords, hasInfix K.imp.pfxC kw.toList = true → kw = K.imp.pfx) ∧
+    (∀ k ∈ K.all, k.pfx ∈ Gen.cellLexerKeywords) ∧
+    (∃ kw ∈ Gen.cellLexerKeywords, kw ≠ K.u.pfx ∧ hasInfix K.u.pfxC kw.toList = true) := by
+  refine ⟨by decide, by decide, "nonu", by decide, by decide, by decide⟩
+
+/-- non-vacuity and the shape of the defect the IMP-only guard excludes: a card `imp:n=1 nonu=1 unc:n=0 tmp1=2.5e-8`
+    keeps a node for all five classes, and a cell in universe 5 with U printed in the cell block gets `u=5` -/
+example :
+    let ps : List Param := [⟨"imp:n".toList, "imp".toList⟩, ⟨"nonu".toList, "nonu".toList⟩, ⟨"unc:n".toList, "unc".toList⟩,
+                            ⟨"tmp1".toList, "tmp".toList⟩]
+    let c : Cell := ⟨1, [⟨0, 1, [0]⟩], none, some 5, false, none, none, false, false, ⟨true, false, false, false, false⟩⟩
+    impKeysAreImp ps = true ∧ slots ps = K.all ∧
+      formatCellTree (fun a b => a == b) ⟨true, true, false, true, true⟩ c ps = .cell 1 [⟨K.u, [], 5⟩] := by
+  decide
+
+
 end MontePyVerif.C09
